@@ -35,12 +35,14 @@ REG.contract(
 REG.contract(
     'KeyValuePairNode.edits', params={'self': 'ref[KeyValuePairNode]', 'node': 'ref[TreeNode]'}, returns='ref[Edit]',
     allocates=True,
-    raises={'RuntimeError': 'not isinstance(node, KeyValuePairNode)'},
     ensures=[
         'result.from_node == self and result.to_node == node', 'isnew(result)',
+        # a partner that is not a pair (a mapping compared with a multiset of other nodes, e.g. a Python dict with a set)
+        # replaces the pair (repository fix 6e3e961; before it this case raised RuntimeError and crashed the comparison)
+        'implies(not isinstance(node, KeyValuePairNode), typeis(result, "Replace"))',
         # a pair edit over two different keys exists only when key edits are allowed; otherwise wholesale Replace
-        'implies(not self.allow_key_edits and not eqv(self.key, node.key), typeis(result, "Replace"))',
-        'implies(self.allow_key_edits or eqv(self.key, node.key), typeis(result, "KeyValuePairEdit"))',
+        'implies(isinstance(node, KeyValuePairNode) and not self.allow_key_edits and not eqv(self.key, node.key), typeis(result, "Replace"))',
+        'implies(isinstance(node, KeyValuePairNode) and (self.allow_key_edits or eqv(self.key, node.key)), typeis(result, "KeyValuePairEdit"))',
         'not isinstance(result, Remove) and not isinstance(result, Insert)',
     ])
 
